@@ -16,16 +16,19 @@
        fancy indices on lists/tuples (result is a list), [_detection_cat[index]];
        [copyx] = the repaired code copies the [_extra_properties] list, the original
        code ([copyx = false]) copies the reference;
-     * [as_scalar], [use_detcat], lazyproperty caching with the dependency graph;
+     * [as_scalar], [use_detcat] (value read from the detection catalog and cached in
+       both), lazyproperty caching;
      * add / remove / rename_extra_property with their validation errors, their order of
        side effects and their partial effects on errors; photometry methods with [name=];
-       [to_table]; [get_label(s)] / [get_id(s)].
+       [to_table(columns=extra_properties)]; [get_label(s)] / [get_id(s)].
    What is abstract (section variables / case inputs): the per-source value function
    [f role p s] (value of property p for root source s, as an opaque identifier), the
-   class description [lazy], [desc] (flags read from the decorators of the real class) and
-   the direct dependency graph [deps] (edge flags per source: the edge is followed iff
-   some source of the catalog has the flag, e.g. cutout_centroid_quad -> cutout_centroid
-   only where the quadratic fit fails). *)
+   class description [lazy], [desc] (flags read from the decorators of the real class),
+   and — for every read — the TRACE of the read: the list of other lazyproperties whose
+   bodies are run (and whose results are cached) while the body of the requested property
+   runs, in completion order, for the catalog and for its detection catalog.  The body of
+   a property is not modelled; the model says what is cached where and in which shape,
+   whatever the traces are. *)
 From Coq Require Import List ZArith Bool Lia.
 From PV Require Import lib.Cases.
 Import ListNotations.
@@ -127,26 +130,41 @@ Inductive role := Main | Det.
 
 Record pdesc := {
   priv : bool;    (* name starts with '_' *)
-  asc : bool;     (* decorated with as_scalar *)
+  asc : bool;     (* a scalar catalog reports the bare per-source value (as_scalar) *)
   udet : bool;    (* decorated with use_detcat *)
   pyscal : bool;  (* value is a python/numpy scalar (np.isscalar): isscalar, nlabels *)
   kind0 : kind;   (* container type of a freshly computed value, catalog not scalar *)
   kind1 : kind    (* container type of a freshly computed value, scalar catalog, when not unwrapped *)
 }.
 
+Definition elems (v : cval) : list V :=
+  match v with CPy => [] | CScal x => [x] | CCont _ l => l end.
+
+Definition cache (p : name) (v : cval) (m : core) :=
+  {| src := src m; scal := scal m; dict := dset p v (dict m) |}.
+
+(* heap of _extra_properties lists *)
+Definition heapT := list (list name).
+Definition hget (h : heapT) (r : nat) : list name := nth r h [].
+Fixpoint hset (h : heapT) (r : nat) (l : list name) : heapT :=
+  match h, r with
+  | [], _ => []
+  | _ :: t, O => l :: t
+  | x :: t, S k => x :: hset t k l
+  end.
+
 Section Model.
 Variable sourcecat : bool.          (* true: SourceCatalog; false: ApertureStats *)
 Variable copyx : bool.              (* true: repaired __getitem__ (copies _extra_properties) *)
 Variable lazy : list name.          (* self._lazyproperties *)
-Variable props : list name.         (* self._properties + init attributes + method names: hasattr is True *)
+Variable props : list name.         (* names for which hasattr is True on every instance *)
 Variable internal : list name.      (* self._properties + init attributes in __dict__ *)
+Variable basep : list name.         (* plain properties computed from the sliced init attributes
+                                       (label, slices / id): never cached *)
 Variable desc : name -> pdesc.
-Variable deps : role -> name -> list (name * list bool).
 Variable f : role -> name -> nat -> V.
 Variable nm_isscalar nm_nlabels nm_pixap nm_localbkg : name.
-
-Definition elems (v : cval) : list V :=
-  match v with CPy => [] | CScal x => [x] | CCont _ l => l end.
+Variable isc_trace : list name.     (* lazyproperties run by reading isscalar ([] / [_pixel_aperture]) *)
 
 (* which role supplies the values of property p of a catalog with/without detection cat *)
 Definition vrole (r : role) (hasdet : bool) (p : name) : role :=
@@ -163,57 +181,45 @@ Definition fresh (r : role) (c : core) (p : name) : cval :=
     else CCont (kind1 d) vals
   else CCont (kind0 d) vals.
 
-Definition active (c : core) (e : name * list bool) : bool :=
-  existsb (fun s => nth s (snd e) false) (src c).
-
-(* lazyproperty read on a catalog without detection catalog (or on the detection
-   catalog itself): cached value, else evaluate the body: its direct dependencies are
-   read first (and cached), then the value is stored in __dict__ *)
-Fixpoint ev_core (fuel : nat) (r : role) (c : core) (p : name) : core * cval :=
-  match lookup p (dict c) with
-  | Some v => (c, v)
-  | None =>
-      let c1 := match fuel with
-                | O => c
-                | S k => fold_left (fun c e => if active c e then fst (ev_core k r c (fst e)) else c)
-                                   (deps r p) c
-                end in
-      let v := fresh r c1 p in
-      ({| src := src c1; scal := scal c1; dict := dset p v (dict c1) |}, v)
-  end.
+(* lazyproperty.__get__ for one property whose body needs nothing that is not cached *)
+Definition eval1 (r : role) (c : core) (q : name) : core :=
+  match lookup q (dict c) with Some _ => c | None => cache q (fresh r c q) c end.
+(* a read with its trace *)
+Definition eval_core (r : role) (c : core) (tr : list name) : core := fold_left (eval1 r) tr c.
 
 Definition set_main (m : core) (c : cat) := {| main := m; xref := xref c; det := det c |}.
 Definition set_det (d : core) (c : cat) := {| main := main c; xref := xref c; det := Some d |}.
-Definition cache (p : name) (v : cval) (m : core) :=
-  {| src := src m; scal := scal m; dict := dset p v (dict m) |}.
 
-(* lazyproperty read on a catalog that may own a detection catalog: use_detcat
-   properties are read from the detection catalog and cached in both *)
-Fixpoint ev (fuel : nat) (c : cat) (p : name) : cat * cval :=
-  match lookup p (dict (main c)) with
-  | Some v => (c, v)
+(* one property on a catalog that may own a detection catalog: use_detcat properties are
+   read from the detection catalog (and cached there) and the same value is cached here *)
+Definition eval1_cat (c : cat) (q : name) : cat :=
+  match lookup q (dict (main c)) with
+  | Some _ => c
   | None =>
       match det c with
       | Some d =>
-          if udet (desc p) then
-            let '(d', v) := ev_core fuel Det d p in
-            (set_main (cache p v (main c)) (set_det d' c), v)
-          else
-            let c1 := match fuel with
-                      | O => c
-                      | S k => fold_left (fun c e => if active (main c) e then fst (ev k c (fst e)) else c)
-                                         (deps Main p) c
-                      end in
-            let v := fresh Main (main c1) p in
-            (set_main (cache p v (main c1)) c1, v)
-      | None =>
-          let '(m', v) := ev_core fuel Main (main c) p in (set_main m' c, v)
+          if udet (desc q) then
+            let d' := eval1 Det d q in
+            match lookup q (dict d') with
+            | Some v => set_main (cache q v (main c)) (set_det d' c)
+            | None => c                                   (* unreachable *)
+            end
+          else set_main (cache q (fresh Main (main c) q) (main c)) c
+      | None => set_main (cache q (fresh Main (main c) q) (main c)) c
       end
   end.
 
-Definition fuel0 := 2 * length lazy + 4.
-Definition read (c : cat) (p : name) := ev fuel0 c p.
-Definition read_core (r : role) (c : core) (p : name) := ev_core fuel0 r c p.
+Definition eval_det (c : cat) (trd : list name) : cat :=
+  match det c with Some d => set_det (eval_core Det d trd) c | None => c end.
+
+Definition eval_cat (c : cat) (trm trd : list name) : cat :=
+  fold_left eval1_cat trm (eval_det c trd).
+
+(* getattr(cat, p) for a lazyproperty or a plain property, with the traces of the read *)
+Definition read (c : cat) (p : name) (trm trd : list name) : cat * cval :=
+  if zmem p basep then let c' := eval_cat c trm trd in (c', fresh Main (main c') p) else
+  let c' := eval_cat c (trm ++ [p]) trd in
+  (c', match lookup p (dict (main c')) with Some v => v | None => CPy end).
 
 (* ---------- __getitem__ ---------- *)
 (* value[index] for one cached value, with the scalar-child / private-key convention
@@ -243,42 +249,34 @@ Definition slice_value (child_scalar : bool) (p : name) (v : cval) (idx : index)
       end
   end.
 
+Definition slice_step (sc : bool) (idx : index) (acc : option core) (e : name * cval) : option core :=
+  match acc with
+  | None => None
+  | Some ch =>
+      match slice_value sc (fst e) (snd e) idx with
+      | None => None
+      | Some None => Some ch
+      | Some (Some v) => Some (cache (fst e) v ch)
+      end
+  end.
+
+Definition copied_key (extras : list name) (e : name * cval) : bool :=
+  zmem (fst e) lazy || zmem (fst e) extras || (negb sourcecat && (fst e =? nm_localbkg)%Z).
+
 Definition getitem_core (r : role) (extras : list name) (c : core) (idx : index) : res core * core :=
   (* if self.isscalar: raise TypeError *)
-  let '(c, _) := read_core r c nm_isscalar in
+  let c := eval_core r c (isc_trace ++ [nm_isscalar]) in
   if scal c then (Err eType, c) else
   match resolve idx (length (src c)) with
   | None => (Err eIndex, c)
   | Some (sc, pos) =>
       let child0 := {| src := pick 0 (src c) pos; scal := sc; dict := [] |} in
       (* newcls.isscalar is evaluated (and cached) before the cached values are copied *)
-      let '(child1, _) := read_core r child0 nm_isscalar in
-      let keys := filter (fun e => zmem (fst e) lazy || zmem (fst e) extras
-                                   || (negb sourcecat && (fst e =? nm_localbkg)%Z)) (dict c) in
-      let step (acc : option core) (e : name * cval) :=
-          match acc with
-          | None => None
-          | Some ch =>
-              match slice_value sc (fst e) (snd e) idx with
-              | None => None
-              | Some None => Some ch
-              | Some (Some v) => Some (cache (fst e) v ch)
-              end
-          end in
-      match fold_left step keys (Some child1) with
+      let child1 := eval_core r child0 (isc_trace ++ [nm_isscalar]) in
+      match fold_left (slice_step sc idx) (filter (copied_key extras) (dict c)) (Some child1) with
       | None => (Err eIndex, c)
       | Some ch => (Ok ch, c)
       end
-  end.
-
-(* heap of _extra_properties lists *)
-Definition heapT := list (list name).
-Definition hget (h : heapT) (r : nat) : list name := nth r h [].
-Fixpoint hset (h : heapT) (r : nat) (l : list name) : heapT :=
-  match h, r with
-  | [], _ => []
-  | _ :: t, O => l :: t
-  | x :: t, S k => x :: hset t k l
   end.
 
 Definition getitem (h : heapT) (c : cat) (idx : index) : heapT * cat * res cat :=
@@ -288,19 +286,17 @@ Definition getitem (h : heapT) (c : cat) (idx : index) : heapT * cat * res cat :
   match r with
   | Err e => (h, c, Err e)
   | Ok chm =>
-      let finish (dch : option core) :=
+      let finish (c : cat) (dch : option core) :=
           if copyx then (h ++ [extras], c, Ok {| main := chm; xref := length h; det := dch |})
           else (h, c, Ok {| main := chm; xref := xref c; det := dch |}) in
       match det c with
-      | None => finish None
+      | None => finish c None
       | Some d =>
           let '(rd, d') := getitem_core Det [] d idx in
           let c := set_det d' c in
           match rd with
           | Err e => (h, c, Err e)
-          | Ok dch =>
-              if copyx then (h ++ [extras], c, Ok {| main := chm; xref := length h; det := Some dch |})
-              else (h, c, Ok {| main := chm; xref := xref c; det := Some dch |})
+          | Ok dch => finish c (Some dch)
           end
       end
   end.
@@ -327,10 +323,12 @@ Definition label_index (rootlabels : list Z) (c : cat) (one : bool) (labs : list
 (* ---------- extra properties ---------- *)
 Definition dkeys (d : dictT) := map fst d.
 
-Definition getattr (c : cat) (p : name) : cat * res cval :=
+(* getattr for an attribute or a lazyproperty *)
+Definition getattr (c : cat) (p : name) (trm trd : list name) : cat * res cval :=
   match lookup p (dict (main c)) with
   | Some v => (c, Ok v)
-  | None => if zmem p lazy then let '(c', v) := read c p in (c', Ok v) else (c, Err eAttr)
+  | None => if zmem p lazy || zmem p basep then let '(c', v) := read c p trm trd in (c', Ok v)
+            else (c, Err eAttr)
   end.
 
 Definition add_extra (h : heapT) (c : cat) (nm : name) (value : cval) (overwrite : bool)
@@ -340,7 +338,7 @@ Definition add_extra (h : heapT) (c : cat) (nm : name) (value : cval) (overwrite
   if is_internal then (h, c, Err eValue) else
   if negb overwrite && (zmem nm (dkeys (dict (main c))) || zmem nm props || zmem nm ex)
   then (h, c, Err eValue) else
-  let '(c, _) := read c nm_isscalar in
+  let c := eval_cat c [nm_isscalar] [] in
   let chk : cat * option cval :=
       if scal (main c) then
         match value with
@@ -350,7 +348,7 @@ Definition add_extra (h : heapT) (c : cat) (nm : name) (value : cval) (overwrite
         end
       else
         match value with
-        | CCont k l => let '(c, _) := read c nm_nlabels in
+        | CCont k l => let c := eval_cat c [nm_nlabels] [] in
                        if length l =? length (src (main c)) then (c, Some value) else (c, None)
         | _ => (c, None)
         end in
@@ -383,8 +381,9 @@ Definition remove_extras (h : heapT) (c : cat) (names : list name) : heapT * cat
   | Ok ex' => (h ++ [ex'], {| main := main c; xref := length h; det := det c |}, Ok tt)
   end.
 
-Definition rename_extra (h : heapT) (c : cat) (nm new : name) : heapT * cat * res unit :=
-  let '(c, rv) := getattr c nm in
+Definition rename_extra (h : heapT) (c : cat) (nm new : name) (trm trd : list name)
+  : heapT * cat * res unit :=
+  let '(c, rv) := getattr c nm trm trd in
   match rv with
   | Err e => (h, c, Err e)
   | Ok v =>
@@ -405,15 +404,10 @@ Definition rename_extra (h : heapT) (c : cat) (nm new : name) : heapT * cat * re
       end
   end.
 
-(* circular_photometry / kron_photometry / fluxfrac_radius (name=...): [m] is the list
-   of result pseudo-properties (flux, fluxerr), the first one carries the dependencies *)
-Definition method_value (c : cat) (m : name) : cval :=
-  let vals := map (f Main m) (src (main c)) in
-  if scal (main c) then match vals with [x] => CScal x | _ => CCont KArr vals end
-  else CCont KArr vals.
-
-Definition run_deps (c : cat) (m : name) : cat :=
-  fold_left (fun c e => if active (main c) e then fst (read c (fst e)) else c) (deps Main m) c.
+(* circular_photometry / kron_photometry / fluxfrac_radius (name=...): [ms] is the list
+   of result pseudo-properties (flux, fluxerr); the lazyproperties the method reads are
+   given by the traces *)
+Definition method_value (c : cat) (m : name) : cval := fresh Main (main c) m.
 
 Fixpoint add_all (h : heapT) (c : cat) (nv : list (name * cval)) (overwrite : bool) : heapT * cat * res unit :=
   match nv with
@@ -423,30 +417,33 @@ Fixpoint add_all (h : heapT) (c : cat) (nv : list (name * cval)) (overwrite : bo
   end.
 
 Definition photometry (h : heapT) (c : cat) (ms : list name) (names : list name) (overwrite : bool)
-  : heapT * cat * res (list cval) :=
-  let c := match ms with m :: _ => run_deps c m | [] => c end in
+           (trm trd : list name) : heapT * cat * res (list cval) :=
+  let c := eval_cat c trm trd in
   let vals := map (method_value c) ms in
   let '(h, c, r) := add_all h c (combine names vals) overwrite in
   match r with Err e => (h, c, Err e) | Ok _ => (h, c, Ok vals) end.
 
+(* to_table(columns): getattr(self, column), then self.isscalar, for each column *)
 Fixpoint to_table (c : cat) (cols : list name) : cat * res unit :=
   match cols with
   | [] => (c, Ok tt)
-  | n :: r => let '(c, v) := getattr c n in
-              match v with Err e => (c, Err e) | Ok _ => to_table c r end
+  | n :: r => match lookup n (dict (main c)) with
+              | Some _ => to_table (eval_cat c [nm_isscalar] []) r
+              | None => (c, Err eAttr)
+              end
   end.
 
 (* ---------- worlds, operations, observations ---------- *)
 Record world := { heap : heapT; cats : list cat }.
 
 Inductive op :=
-| OEval (j : nat) (p : name)
+| OEval (j : nat) (p : name) (trm trd : list name)
 | OIndex (j : nat) (idx : index)
 | OLabel (j : nat) (one : bool) (labs : list Z)
 | OAdd (j : nat) (nm : name) (v : cval) (overwrite : bool)
 | ORemove (j : nat) (names : list name)
-| ORename (j : nat) (nm new : name)
-| OPhot (j : nat) (ms names : list name) (overwrite : bool)
+| ORename (j : nat) (nm new : name) (trm trd : list name)
+| OPhot (j : nat) (ms names : list name) (overwrite : bool) (trm trd : list name)
 | OTable (j : nat)                       (* to_table(columns=extra_properties) *)
 | OExtras (j : nat)
 | ODict (j : nat).
@@ -479,18 +476,23 @@ Definition do_index (w : world) (j : nat) (idx : index) : world * obs :=
 
 Definition step (w : world) (o : op) : world * obs :=
   match o with
-  | OEval j p => let '(c, v) := read (wcat w j) p in (upd w (heap w) j c, BVal v)
+  | OEval j p trm trd => let '(c, v) := read (wcat w j) p trm trd in (upd w (heap w) j c, BVal v)
   | OIndex j idx => do_index w j idx
   | OLabel j one labs =>
-      match label_index rootlabels (wcat w j) one labs with
-      | None => (w, BErr eValue)
-      | Some idx => do_index w j idx
+      (* ApertureStats.get_ids reads self.ids (hence isscalar) before validating the ids;
+         SourceCatalog.get_labels validates against the segmentation image first *)
+      let c1 := if sourcecat then wcat w j else eval_cat (wcat w j) (isc_trace ++ [nm_isscalar]) [] in
+      let w1 := upd w (heap w) j c1 in
+      match label_index rootlabels c1 one labs with
+      | None => (w1, BErr eValue)
+      | Some idx => do_index w1 j idx
       end
   | OAdd j nm v ow => let '(h, c, r) := add_extra (heap w) (wcat w j) nm v ow in (upd w h j c, unit_obs r)
   | ORemove j names => let '(h, c, r) := remove_extras (heap w) (wcat w j) names in (upd w h j c, unit_obs r)
-  | ORename j nm new => let '(h, c, r) := rename_extra (heap w) (wcat w j) nm new in (upd w h j c, unit_obs r)
-  | OPhot j ms names ow =>
-      let '(h, c, r) := photometry (heap w) (wcat w j) ms names ow in
+  | ORename j nm new trm trd =>
+      let '(h, c, r) := rename_extra (heap w) (wcat w j) nm new trm trd in (upd w h j c, unit_obs r)
+  | OPhot j ms names ow trm trd =>
+      let '(h, c, r) := photometry (heap w) (wcat w j) ms names ow trm trd in
       (upd w h j c, match r with Ok l => BVals l | Err e => BErr e end)
   | OTable j => let c := wcat w j in
                 let '(c, r) := to_table c (hget (heap w) (xref c)) in (upd w (heap w) j c, unit_obs r)
@@ -527,7 +529,7 @@ Fixpoint all2 {A B} (r : A -> B -> bool) (a : list A) (b : list B) : bool :=
   | _, _ => false
   end.
 
-Definition cval_matches (strict_whole : bool) (v : cval) (i : ival) : bool :=
+Definition cval_matches (v : cval) (i : ival) : bool :=
   let '(whole, kc, es) := i in
   match v with
   | CPy => (kc =? 0)%Z
@@ -542,7 +544,7 @@ Inductive iobs :=
 Fixpoint dict_matches (d : dictT) (i : list (Z * ival)) : bool :=
   match i with
   | [] => true
-  | (p, iv) :: r => match lookup p d with Some v => cval_matches true v iv | None => false end
+  | (p, iv) :: r => match lookup p d with Some v => cval_matches v iv | None => false end
                     && dict_matches d r
   end.
 Definition dict_eq (d : dictT) (i : list (Z * ival)) : bool :=
@@ -550,8 +552,8 @@ Definition dict_eq (d : dictT) (i : list (Z * ival)) : bool :=
 
 Definition obs_matches (b : obs) (i : iobs) : bool :=
   match b, i with
-  | BVal v, IVal iv => cval_matches true v iv
-  | BVals l, IVals il => all2 (cval_matches true) l il
+  | BVal v, IVal iv => cval_matches v iv
+  | BVals l, IVals il => all2 cval_matches l il
   | BErr e, IErr e' => (e =? e')%Z
   | BUnit, IUnit => true
   | BNames l, INames l' => zlist_eqb l l'
@@ -567,7 +569,7 @@ Definition obs_matches (b : obs) (i : iobs) : bool :=
 (* class description row: name, priv, asc, udet, pyscal, kind0, kind1 *)
 Definition drow := (Z * bool * bool * bool * bool * Z * Z)%type.
 Definition default_desc : pdesc :=
-  {| priv := false; asc := false; udet := false; pyscal := false; kind0 := KArr; kind1 := KArr |}.
+  {| priv := false; asc := true; udet := false; pyscal := false; kind0 := KArr; kind1 := KArr |}.
 Fixpoint desc_of (t : list drow) (p : name) : pdesc :=
   match t with
   | [] => default_desc
@@ -575,37 +577,36 @@ Fixpoint desc_of (t : list drow) (p : name) : pdesc :=
       if (q =? p)%Z then {| priv := a; asc := b; udet := c; pyscal := d; kind0 := kind_of k0; kind1 := kind_of k1 |}
       else desc_of r p
   end.
-Definition deps_of (t : list (Z * list (Z * list bool))) (p : name) : list (name * list bool) :=
-  match find (fun e => (fst e =? p)%Z) t with Some e => snd e | None => [] end.
 Definition f_of (t : list (Z * list Z)) (p : name) (s : nat) : V :=
   match find (fun e => (fst e =? p)%Z) t with Some e => nth s (snd e) (-1)%Z | None => (-1)%Z end.
 
-(* a case: class flag, copyx is fixed to the repaired code, description, dependency and
-   value tables for the catalog and its detection catalog, special names, root labels,
-   number of sources, has detection catalog, initial dict of the root (ApertureStats:
-   _local_bkg), the operations and the implementation's observations *)
+(* a case: class flag, description and value tables for the catalog and its detection
+   catalog, special names, root labels, number of sources, has detection catalog, initial
+   dict of the root (ApertureStats: _local_bkg), the operations and the implementation's
+   observations.  [k_copy] = which __getitem__ the model uses (true: the repaired code). *)
 Record case := {
   k_sourcecat : bool;
-  k_lazy : list Z; k_props : list Z; k_internal : list Z;
+  k_lazy : list Z; k_props : list Z; k_internal : list Z; k_basep : list Z;
   k_desc : list drow;
-  k_deps : list (Z * list (Z * list bool)); k_deps_det : list (Z * list (Z * list bool));
   k_f : list (Z * list Z); k_f_det : list (Z * list Z);
-  k_special : Z * Z * Z * Z;
+  k_special : Z * Z * Z * Z; k_isc_trace : list Z;
   k_labels : list Z; k_n : Z; k_hasdet : bool; k_d0 : list (Z * list Z);
   k_ops : list op; k_obs : list iobs
 }.
 
 Definition model_run (copy : bool) (c : case) : list obs :=
   let '(a, b, p, l) := k_special c in
-  let deps := fun r => match r with Main => deps_of (k_deps c) | Det => deps_of (k_deps_det c) end in
   let f := fun r => match r with Main => f_of (k_f c) | Det => f_of (k_f_det c) end in
   let d0 := map (fun e => (fst e, CCont KArr (snd e))) (k_d0 c) in
-  snd (run (k_sourcecat c) copy (k_lazy c) (k_props c) (k_internal c) (desc_of (k_desc c)) deps f a b p l
-           (k_labels c) (init_world (Z.to_nat (k_n c)) (k_hasdet c) d0) (k_ops c)).
+  snd (run (k_sourcecat c) copy (k_lazy c) (k_props c) (k_internal c) (k_basep c) (desc_of (k_desc c)) f
+           a b p l (k_isc_trace c) (k_labels c)
+           (init_world (Z.to_nat (k_n c)) (k_hasdet c) d0) (k_ops c)).
 
 Definition check_case (c : case) : bool := all2 obs_matches (model_run true c) (k_obs c).
-(* indices of the observations that differ (for reports) *)
+(* the unrepaired __getitem__ (shared _extra_properties list) *)
+Definition check_case_shared (c : case) : bool := all2 obs_matches (model_run false c) (k_obs c).
 Definition model_out (c : case) := model_run true c.
+(* indices of the observations that differ (for reports) *)
 Definition bad_obs (c : case) : list nat :=
   let fix go (l : list obs) (i : list iobs) (k : nat) : list nat :=
       match l, i with
